@@ -437,6 +437,10 @@ func sendHelloDevice(ctx context.Context, transport Transport, c *TO2Config) (pr
 			captureErr(ctx, protocol.MessageBodyErrCode, "")
 			return protocol.Nonce{}, nil, nil, fmt.Errorf("error parsing TO2.ProveOVHdr contents: %w", err)
 		}
+		if proveOVHdr.Payload == nil {
+			captureErr(ctx, protocol.MessageBodyErrCode, "")
+			return protocol.Nonce{}, nil, nil, fmt.Errorf("TO2.ProveOVHdr has no payload")
+		}
 		defer clear(proveOVHdr.Payload.Val.KeyExchangeA)
 
 	case protocol.ErrorMsgType:
@@ -452,7 +456,12 @@ func sendHelloDevice(ctx context.Context, transport Transport, c *TO2Config) (pr
 	}
 
 	// Validate the HelloDeviceHash
-	helloDeviceHash := proveOVHdr.Payload.Val.HelloDeviceHash.Algorithm.HashFunc().New()
+	helloDeviceHashFunc, err := hashFor(proveOVHdr.Payload.Val.HelloDeviceHash.Algorithm)
+	if err != nil {
+		captureErr(ctx, protocol.InvalidMessageErrCode, "")
+		return protocol.Nonce{}, nil, nil, fmt.Errorf("HelloDevice hash in TO2.ProveOVHdr: %w", err)
+	}
+	helloDeviceHash := helloDeviceHashFunc.New()
 	if err := cbor.NewEncoder(helloDeviceHash).Encode(hello); err != nil {
 		return protocol.Nonce{}, nil, nil, fmt.Errorf("error hashing HelloDevice message to verify against TO2.ProveOVHdr payload's hash: %w", err)
 	}
@@ -853,6 +862,10 @@ func proveDevice(ctx context.Context, transport Transport, proveDeviceNonce prot
 			captureErr(ctx, protocol.MessageBodyErrCode, "")
 			return protocol.Nonce{}, nil, fmt.Errorf("error parsing TO2.SetupDevice contents: %w", err)
 		}
+		if setupDevice.Payload == nil {
+			captureErr(ctx, protocol.MessageBodyErrCode, "")
+			return protocol.Nonce{}, nil, fmt.Errorf("TO2.SetupDevice has no payload")
+		}
 		if setupDevice.Payload.Val.NonceTO2SetupDv != setupDeviceNonce {
 			captureErr(ctx, protocol.InvalidMessageErrCode, "")
 			return protocol.Nonce{}, nil, fmt.Errorf("nonce in TO2.SetupDevice did not match nonce sent in TO2.ProveDevice")
@@ -915,6 +928,9 @@ func (s *TO2Server) setupDevice(ctx context.Context, msg io.Reader) (*cose.Sign1
 	var proof cose.Sign1Tag[cbor.RawBytes, []byte]
 	if err := cbor.NewDecoder(msg).Decode(&proof); err != nil {
 		return nil, fmt.Errorf("error decoding TO2.ProveDevice request: %w", err)
+	}
+	if proof.Payload == nil {
+		return nil, fmt.Errorf("TO2.ProveDevice token has no payload")
 	}
 	var eat eatoken
 	if err := cbor.Unmarshal([]byte(proof.Payload.Val), &eat); err != nil {
